@@ -25,6 +25,8 @@ type mutant struct {
 	Disabled string `json:"disabled,omitempty"`
 }
 
+var genMu sync.Mutex
+
 type mutantOutcome struct {
 	m       mutant
 	caught  bool
@@ -62,12 +64,17 @@ func runMutant(m mutant, o *options) mutantOutcome {
 		return out
 	}
 	mutated := strings.Replace(string(src), m.Search, m.Replace, 1)
+	// loading and VC generation share package-level caches (lock sets, rename aliases): one mutant at a time;
+	// the solver phase, which dominates, runs in parallel
+	genMu.Lock()
 	p, err := loadProg(o.repo, o.verif, map[string][]byte{path: []byte(mutated)}, o.mirror)
 	if err != nil {
+		genMu.Unlock()
 		out.problem = "mutant does not load: " + err.Error()
 		return out
 	}
 	cr := generate(p, m.Property)
+	genMu.Unlock()
 	oo := *o
 	oo.tier = "quick"
 	discharge(cr.obls, &oo)
